@@ -625,9 +625,16 @@ impl Client {
             .writer
             .lock()
             .map_err(|_| poisoned_lock_error("client writer"))?;
-        write_message(&mut *writer, msg)?;
-        writer.flush()?;
-        Ok(())
+        let result = write_message(&mut *writer, msg).and_then(|()| Ok(writer.flush()?));
+        if result.is_err() {
+            // A failed write (a write timeout, a reset) may have put part of the
+            // frame on the wire. The connection cannot carry whole frames any
+            // more, so close it rather than letting the next request be written
+            // into the middle of this one; the reader thread then fails every
+            // call still waiting.
+            let _ = writer.get_ref().shutdown(Shutdown::Both);
+        }
+        result
     }
 
     fn remove_pending(&self, id: u64) {
